@@ -211,9 +211,9 @@ def run(ctx, prog):
                     for tg, p in flow.switch_edge_predicates(ii, i, of):
                         if 'Atomic::load' in p and 'expected_generation' in p.replace('arg:', '') and i in (ii.reach([c.bb])):
                             eq_edges.append((i, tg, p))
-            mism = [(i, tg) for i, tg, p in eq_edges if re.match(r'^cmp\[.* != 0\]$', p) or re.match(r'^!eq\[', p)]
+            mism = [(i, tg) for i, tg, p in eq_edges if re.match(r'^!cmp\[.* == 0\]$', p) or re.match(r'^!eq\[', p)]
             mism = [e for e in mism if e[0] == min(x[0] for x in mism)] if mism else []
-            match = [(i, tg) for i, tg, p in eq_edges if (re.match(r'^!cmp\[.* != 0\]$', p) or re.match(r'^eq\[', p))]
+            match = [(i, tg) for i, tg, p in eq_edges if (re.match(r'^cmp\[.* == 0\]$', p) or re.match(r'^eq\[', p))]
             if not mism:
                 ok_all = False
                 continue
@@ -299,7 +299,7 @@ def run(ctx, prog):
         for i, blk in enumerate(cb.blocks):
             if blk['t']['k'] == 'switch':
                 for tg, p in flow.switch_edge_predicates(cb, i, cv):
-                    if re.match(r'^!cmp\[\+ (arg|var):candidate_key→QueryCacheKey\.scope - cap:scope != 0\]$|^!cmp\[\+ cap:scope - (arg|var):candidate_key→QueryCacheKey\.scope != 0\]$', p):
+                    if re.match(r'^cmp\[\+ (arg|var):candidate_key→QueryCacheKey\.scope - cap:scope == 0\]$|^cmp\[\+ cap:scope - (arg|var):candidate_key→QueryCacheKey\.scope == 0\]$', p):
                         scope_e.append((i, tg))
                     if re.match(r'^!cmp\[\+ cap:k - var:candidate→CachedQueryResult\.requested_k >= 1\]$|^!cmp\[\+ var:candidate→CachedQueryResult\.requested_k - cap:k <= -1\]$', p):
                         k_e.append((i, tg))
